@@ -228,6 +228,14 @@ pub fn monotone(tag: &str, wi: usize, s: &View, layers: &[Layer], u: &UFeed, ex:
                         vec![if rank(cur) >= 1 { cur } else { 'N' }, 'T']
                     }
                 },
+                LV::NotTree => {
+                    if e.is_dir {
+                        vec!['T']
+                    }
+                    else {
+                        vec![if rank(cur) >= 1 { cur } else { 'N' }, 'T']
+                    }
+                },
                 LV::NotMay => vec![if rank(cur) >= 1 { cur } else { 'N' }, 'T'],
                 LV::NotNode => {
                     if e.is_dir {
